@@ -66,6 +66,7 @@ def multitask_kernel_case(draw):
 def run_multitask_kernel(case, ctx: Ctx):
     t = case["t"]
     ctx.cls = f"Multitask|kb{case['kb']}|xb{case['xb']}|{'smooth' if kern.smooth_at_zero(case['kernel']) else 'kink'}"
+    ctx.label("mt:rank<t" if case["rank"] < t else "mt:rank=t", f"mt:kb={case['kb']},xb={case['xb']}", "mt:x1=x2(+diag)" if case["same"] else "mt:x1!=x2")
     x1, x2 = T(case["x1"]), T(case["x2"])
     with ctx.observing("build"):
         k = K.MultitaskKernel(kern.build_kernel(case["kernel"]), num_tasks=t, rank=case["rank"], batch_shape=torch.Size(case["kb"]))
@@ -85,7 +86,6 @@ def run_multitask_kernel(case, ctx: Ctx):
     if gdiag is not None:
         ctx.close("diag", gdiag, want.diagonal(dim1=-1, dim2=-2), rtol=1e-9, atol=atol)
     ctx.set_nontrivial(t >= 2 and (case["rank"] < t or x1.shape[-2] != x2.shape[-2]))
-    ctx.label("multitask_kernel", f"t={t}", f"rank<t={case['rank'] < t}", f"kb={case['kb']}", f"xb={case['xb']}", f"same={case['same']}")
 
 
 @st.composite
@@ -106,6 +106,7 @@ def index_kernel_case(draw):
 def run_index_kernel(case, ctx: Ctx):
     t, kb = case["t"], case["kb"]
     ctx.cls = f"Index|kb{kb}|ib{case['ib']}|rank{'0' if case['rank'] == 0 else ('<t' if case['rank'] < t else '=t')}"
+    ctx.label(f"ix:rank{'0' if case['rank'] == 0 else ('<t' if case['rank'] < t else '=t')}", f"ix:kb={kb},ib={case['ib']}")
     i1 = T(case["i1"], dtype=torch.long)
     i2 = T(case["i2"], dtype=torch.long)
     factor = T(case["factor"], dtype=torch.float64).reshape(*kb, t, case["rank"])
@@ -128,7 +129,6 @@ def run_index_kernel(case, ctx: Ctx):
     wd = torch.gather(Bx.diagonal(dim1=-1, dim2=-2), -1, r.squeeze(-1))
     ctx.close("diag", gd, wd, rtol=1e-9, atol=1e-11)
     ctx.set_nontrivial(t >= 2 and len(set(map(int, i1.reshape(-1).tolist()))) >= 2)
-    ctx.label("index_kernel", f"t={t}", f"rank={'0' if case['rank'] == 0 else ('<t' if case['rank'] < t else '=t')}", f"kb={kb}", f"ib={case['ib']}")
 
 
 @st.composite
@@ -155,6 +155,7 @@ def run_lcm_kernel(case, ctx: Ctx):
     t = case["t"]
     q = len(case["kernels"])
     ctx.cls = f"LCM|q{q}|xb{case['xb']}"
+    ctx.label(f"lcm:q={q}", f"lcm:xb={case['xb']}", *(["lcm:rank_list"] if case["rank_list"] else []))
     x1, x2 = T(case["x1"]), T(case["x2"])
     with ctx.observing("build"):
         k = K.LCMKernel([kern.build_kernel(r) for r in case["kernels"]], num_tasks=t, rank=case["ranks"] if case["rank_list"] else case["ranks"][0])
@@ -174,7 +175,6 @@ def run_lcm_kernel(case, ctx: Ctx):
     if gdiag is not None:
         ctx.close("diag", gdiag, want.diagonal(dim1=-1, dim2=-2), rtol=1e-9, atol=atol)
     ctx.set_nontrivial(q >= 2 and t >= 2)
-    ctx.label("lcm_kernel", f"q={q}", f"t={t}", f"rank_list={case['rank_list']}", f"xb={case['xb']}", f"same={case['same']}")
 
 
 # ===================================================================================================
@@ -236,6 +236,8 @@ def run_grid_kernel(case, ctx: Ctx):
     sizes = case["sizes"]
     ragged = len(set(sizes)) > 1
     ctx.cls = f"Grid|d{d}|{'ragged' if ragged else 'square'}|tz{int(case['toeplitz'])}|{case['mode']}"
+    ctx.label(f"grid:d={d}", "grid:ragged" if ragged else "grid:square", "grid:toeplitz" if case["toeplitz"] else ("grid:kron,regular" if case["regular"] else "grid:kron,irregular"),
+              f"grid:{case['mode']}", *(["grid:legacy_tensor"] if case["legacy"] else []), *{f"grid:op={o}" for o in case["ops"]})
     axes = [T(a) for a in case["axes"]]
     with ctx.observing("build"):
         base = kern.build_kernel(case["base"])
@@ -268,8 +270,6 @@ def run_grid_kernel(case, ctx: Ctx):
                 got, want = k(pts, pts).to_dense(), kern.ref_kernel(case["base"], pts, pts)
         ctx.close(op, got, want, rtol=1e-9, atol=atol)
     ctx.set_nontrivial(d >= 2 and (ragged or bool(case["base"].get("ard"))))
-    ctx.label("grid_kernel", f"d={d}", f"ragged={ragged}", f"toeplitz={case['toeplitz']}", f"regular={case['regular']}", f"mode={case['mode']}",
-              f"legacy={case['legacy']}", f"base={kern.describe(case['base'])}", *{f"op={o}" for o in case["ops"]})
 
 
 # ===================================================================================================
@@ -365,8 +365,8 @@ def run_interp_laws(case, ctx: Ctx):
         ctx.close("quadratic", (W @ fU)[interior], fx[interior], rtol=0, atol=1e-12, scale=max(1.0, float(fU.abs().max())))
     nodes_only = any(all("node" in c for c in row) for row in case["pts"])
     ctx.set_nontrivial(bool(interior.any()) and (d >= 2 and len(set(sizes)) > 1 or nodes_only))
-    ctx.label("interp_laws", f"d={d}", f"ragged={len(set(sizes)) > 1}", f"interior={bool(interior.any())}", f"boundary={bool((~interior).any())}",
-              f"node_point={nodes_only}", f"legacy={case['legacy']}")
+    ctx.label(f"interp:d={d}", "interp:ragged" if len(set(sizes)) > 1 else "interp:square", *(["interp:interior_pts"] if bool(interior.any()) else []),
+              *(["interp:boundary_pts"] if bool((~interior).any()) else []), *(["interp:node_point"] if nodes_only else []), *(["interp:legacy_tensor"] if case["legacy"] else []))
 
 
 @st.composite
@@ -384,6 +384,7 @@ def run_interp_order(case, ctx: Ctx):
 
     d = case["d"]
     ctx.cls = f"interp_order|d{d}"
+    ctx.label(f"interp_order:d={d}")
     f = lambda x: torch.prod(torch.sin(x * T(case["freq"]) + T(case["phase"])), -1)  # noqa: E731
     coarse = [_axis(a) for a in case["axes"]]
     fine = [_axis({"g": 2 * a["g"] - 1, "lo": a["lo"], "h": a["h"] / 2}) for a in case["axes"]]
@@ -401,7 +402,6 @@ def run_interp_order(case, ctx: Ctx):
     ctx.check("error_order", errs[1] <= errs[0] / 4 + 1e-13, f"sup error {errs[0]:.3e} on the grid, {errs[1]:.3e} on the halved grid (ratio {errs[0] / max(errs[1], 1e-300):.2f} < 4)")
     ctx.check("error_size", errs[0] <= 0.1, f"sup error {errs[0]:.3e} with a*h <= 0.6")
     ctx.set_nontrivial(errs[0] > 1e-8)
-    ctx.label("interp_order", f"d={d}")
 
 
 # ===================================================================================================
@@ -481,6 +481,7 @@ def run_ski_kernel(case, ctx: Ctx):
     d = case["d"]
     sym = is_symmetric_setup(case)
     ctx.cls = f"SKI|d{d}|{'sym' if sym or d == 1 else 'asym'}|tz{int(case['toeplitz'])}"
+    ctx.label(f"ski:d={d}", "ski:sym" if sym or d == 1 else "ski:asym", "ski:toeplitz" if case["toeplitz"] else "ski:dense_factors")
     x1, x2 = T(case["x1"]), T(case["x2"])
     with ctx.observing("build"):
         k = build_ski(case)
@@ -501,7 +502,6 @@ def run_ski_kernel(case, ctx: Ctx):
     if gd is not None:
         ctx.close("diag", gd, want.diagonal(dim1=-1, dim2=-2), rtol=1e-5, atol=1e-5)
     ctx.set_nontrivial(d >= 2 and not sym)
-    ctx.label("ski_kernel", f"d={d}", f"sym={sym}", f"toeplitz={case['toeplitz']}", f"base={kern.describe(case['base'])}", f"same={case['same']}")
 
 
 # ===================================================================================================
@@ -583,6 +583,7 @@ def _sgpr_tol(kzz, kA):
 def run_sgpr_train(case, ctx: Ctx):
     n, m = case["n"], case["m"]
     ctx.cls = f"SGPR|train|{case['lik']['l']}{'+' if case['lik'].get('learn') else ''}"
+    ctx.label(f"sgpr_train:lik={case['lik']['l']}{'+' if case['lik'].get('learn') else ''}", f"sgpr_train:m{'<' if m < n else ('=' if m == n else '>')}n", *(["sgpr_train:z_1d"] if case["z_1d"] else []))
     X, y = T(case["X"]), T(case["y"])
     with ctx.observing("blocks"):
         Kzz, Kxz, Kxx = _sgpr_blocks(case)
@@ -616,8 +617,6 @@ def run_sgpr_train(case, ctx: Ctx):
     ctx.close("model_covar", gcov, Q, rtol=tol, atol=tol, scale=scale)
     ctx.close("titsias_bound", val * n, bound, rtol=max(tol, 1e-9), atol=max(tol, 1e-9), scale=max(1.0, abs(float(bound))))
     ctx.set_nontrivial(n != m and float((Kxx.diagonal() - Q.diagonal()).abs().max()) > 1e-6)
-    ctx.label("sgpr_train", f"lik={case['lik']['l']}{'+' if case['lik'].get('learn') else ''}", f"m{'<' if m < n else ('=' if m == n else '>')}n",
-              f"z_1d={case['z_1d']}", *{f"leaf={l['k']}" for l in kern.leaves(case["base"])})
 
 
 def run_sgpr_predict(case, ctx: Ctx):
@@ -627,6 +626,8 @@ def run_sgpr_predict(case, ctx: Ctx):
     same = T(case["X"]).shape == T(case["Xs"]).shape and torch.equal(T(case["X"]), T(case["Xs"]))
     ctx.cls = (f"SGPR|predict|corr{int(corr)}|{'lazy' if lazy else 'eager'}|{'same_inputs' if same else 'distinct'}"
                f"|{'base_active_dims' if has_ad else 'base_all_dims'}")
+    ctx.label(f"sgpr:corr={int(corr)},{'lazy' if lazy else 'eager'}", *(["sgpr:fpv"] if case["fpv"] else []), *(["sgpr:same_inputs"] if same else []), *(["sgpr:second_call"] if case["second_call"] else []),
+              f"sgpr:lik={case['lik']['l']}{'+' if case['lik'].get('learn') else ''}", f"sgpr:m{'<' if m < n else ('=' if m == n else '>')}n", *(["sgpr:base_active_dims"] if has_ad else []))
     X, y, Xs = T(case["X"]), T(case["y"]), T(case["Xs"])
     if corr and torch.equal(X, Xs):
         raise Discard("test inputs identical to the training inputs with the diagonal correction on (FITC cross block): not judged")
@@ -666,8 +667,6 @@ def run_sgpr_predict(case, ctx: Ctx):
     ctx.close("cov", gc, cov_w, rtol=tol, atol=tol, scale=scale)
     ctx.close("variance", gv, cov_w.diagonal().clamp_min(S.min_variance.value(gc.dtype)), rtol=tol, atol=tol, scale=scale)
     ctx.set_nontrivial(n != m and ns >= 2)
-    ctx.label("sgpr_predict", f"corr={corr}", f"lazy={lazy}", f"fpv={case['fpv']}", f"same_inputs={case['same_inputs']}", f"second_call={case['second_call']}",
-              f"lik={case['lik']['l']}{'+' if case['lik'].get('learn') else ''}", f"m{'<' if m < n else ('=' if m == n else '>')}n", f"base_active_dims={has_ad}")
 
 
 # ===================================================================================================
@@ -694,6 +693,8 @@ def rff_case(draw):
 def run_rff(case, ctx: Ctx):
     d, n, ns, D = case["d"], case["n"], case["ns"], case["D"]
     ctx.cls = f"RFF|{'scale' if case['outputscale'] is not None else 'plain'}|{'lazy' if case['lazy'] else 'eager'}|{'n>2D' if n > 2 * D else 'n<=2D'}"
+    ctx.label("rff:scale" if case["outputscale"] is not None else "rff:plain", f"rff:{'lazy' if case['lazy'] else 'eager'}", "rff:n>2D" if n > 2 * D else "rff:n<=2D",
+              *(["rff:ard"] if case["ard"] else []), *(["rff:skip_var"] if case["skip_var"] else []), f"rff:lik={case['lik']['l']}")
     X, y, Xs = T(case["X"]), T(case["y"]), T(case["Xs"])
     with ctx.observing("build"):
         torch.manual_seed(case["torch_seed"])  # the kernel draws its spectral weights at construction
@@ -737,8 +738,6 @@ def run_rff(case, ctx: Ctx):
     else:
         ctx.close("cov", gc, cov_w, rtol=tol, atol=tol, scale=scale)
     ctx.set_nontrivial(ns >= 2 and n != 2 * D)
-    ctx.label("rff", f"scale={case['outputscale'] is not None}", f"lazy={case['lazy']}", f"ard={case['ard']}", f"n>2D={n > 2 * D}", f"skip_var={case['skip_var']}",
-              f"lik={case['lik']['l']}{'+' if case['lik'].get('learn') else ''}")
 
 
 # ===================================================================================================
@@ -752,8 +751,6 @@ def kiss_settings(draw, n):
     s["precond"] = draw(st.sampled_from([0, 15]))
     s["detach"] = draw(st.booleans())
     s["lazy"] = draw(st.sampled_from([True, True, False]))
-    if s["max_chol"] == 0 and s["fpv"] and n < 3:
-        s["max_chol"] = 800  # the dependency's Lanczos needs at least a 3x3 matrix
     return s
 
 
@@ -773,6 +770,8 @@ def kiss_predict_case(draw):
         "settings": draw(kiss_settings(n)), "fps": draw(st.booleans()),
         "torch_seed": draw(st.integers(0, 2**31 - 1)),
     }
+    if case["settings"]["max_chol"] == 0 and (case["settings"]["fpv"] or case["fps"]) and n < 3:
+        case["settings"]["max_chol"] = 800  # the dependency's Lanczos needs at least a 3x3 matrix
     if case["settings"]["max_chol"] == 0:
         # iterative paths: construct a domain on which the dependency's CG / Lanczos are accurate (pairwise distinct training
         # rows -> no repeated eigenvalues; noise >= 0.1 -> moderate condition numbers) instead of discarding afterwards
@@ -840,18 +839,35 @@ def _calibrate_cg(A, rhs, s):
         raise Discard("cg path: the dependency's CG (tolerance 1e-12) misses the dense solution of this very system by > 1e-6")
 
 
-def _kiss_tolerances(case, s, fps, A, rhs, kappa, n_nodes):
+def _calibrate_lanczos_root(M, s):
+    """fast_pred_samples above max_cholesky_size: the strategy takes a Lanczos root decomposition of the numerically singular
+    m x m matrix K_UU - K_UU W^T (K~+S)^-1 W K_UU.  Run the dependency's root_decomposition on the dense version of that very
+    matrix and discard the case if the decomposition itself does not reproduce it (domain calibration, not the oracle)."""
+    from linear_operator import to_linear_operator
+
+    with _iter_ctx(s), torch.no_grad():
+        root = to_linear_operator(M).root_decomposition().root.to_dense()
+    err = float((root @ root.transpose(-1, -2) - M).abs().max() / M.abs().max().clamp_min(1e-300))
+    if not err <= 1e-5:
+        raise Discard("lanczos path: the dependency's Lanczos root decomposition does not reproduce the m x m matrix it is given (> 1e-5)")
+
+
+def _kiss_tolerances(case, s, fps, A, rhs, kappa, inside=None):
     """(rtol, atol) and domain calibration of the iterative paths.  The generator constructs well-conditioned systems with
     pairwise distinct training rows for these paths; what is left is discarded (not reported) when the dependency's own
     solver misses the dense solution of the very same system (gpmodel.cg_calibration, one order below the comparison atol)."""
     if s["max_chol"] == 0 and (s["fpv"] or fps):
         # Lanczos (root / inverse-root decompositions from one start vector): spans the whole space only if the eigenvalues of
         # K~+S are distinct; measured error on this domain <= 7e-6, tolerance as in C01 (DESIGN 1.4: Lanczos 2e-3)
+        if A.shape[-1] < 3:
+            raise Discard("lanczos path: the dependency's Lanczos needs at least a 3x3 matrix")
         ev = torch.linalg.eigvalsh(A)
         gap = float(((ev[1:] - ev[:-1]) / ev[-1:]).min()) if A.shape[-1] > 1 else 1.0
         if gap < 1e-6 or kappa > 1e4:
             raise Discard("lanczos path: repeated eigenvalue (relative gap < 1e-6) or kappa > 1e4")
         _calibrate_cg(A, rhs, s)
+        if fps and inside is not None:
+            _calibrate_lanczos_root(inside, s)
         return 2e-3, 2e-3
     if s["max_chol"] == 0:
         if kappa > 1e5:
@@ -868,10 +884,12 @@ def run_kiss_predict(case, ctx: Ctx):
     fantasy = "Xf" in case
     path = "chol" if s["max_chol"] else ("lanczos" if (s["fpv"] or fps) else "cg")
     ctx.cls = f"KISS|d{d}|{'wiski' if fantasy else 'plain'}|fpv{int(s['fpv'])}|fps{int(fps)}|{path}"
+    ctx.label(f"kiss:d={d}", f"kiss:{'wiski' if fantasy else 'plain'}:{path}", f"kiss:fpv={int(s['fpv'])},fps={int(fps)}", *([] if s["lazy"] else ["kiss:eager"]),
+              *(["kiss:scale"] if case["outputscale"] is not None else []), f"kiss:lik={case['lik']['l']}{'+' if case['lik'].get('learn') else ''}", *(["kiss:no_precond"] if s["precond"] == 0 else []))
     X, y, Xs = T(case["X"]), T(case["y"]), T(case["Xs"])
     # ---- oracle: dense conditional on K~ evaluated eagerly by a second instance of the same kernel
     with ctx.observing("own_prior"):
-        _, _, covar2, _ = _kiss_model(case)
+        _, _, covar2, gik2 = _kiss_model(case)
         parts = [X] + ([T(case["Xf"])] if fantasy else []) + [Xs]
         Kf = _joint_blocks(covar2, parts)
     Xall = torch.cat(parts[:-1], -2)
@@ -883,7 +901,17 @@ def run_kiss_predict(case, ctx: Ctx):
     mx, ms = kern.ref_mean(case["mean"], Xall), kern.ref_mean(case["mean"], Xs)
     mean_w, cov_w, kappa, A = G.dense_conditional(Kf[:nt, :nt], Kf[:nt, nt:], Kf[nt:, nt:], mx, ms, sd, yall)
     rhs = torch.cat([(yall - mx).unsqueeze(-1), Kf[:nt, nt:]], -1)
-    rtol, atol = _kiss_tolerances(case, s, fps, A, rhs, kappa, math.prod(case["sizes"]))
+    inside = None
+    if fps and s["max_chol"] == 0 and not fantasy:
+        with ctx.observing("own_prior"), torch.no_grad():
+            axes = [a.clone().to(torch.float64) for a in gik2.grid]
+        c = 1.0 if case["outputscale"] is None else case["outputscale"]
+        U = R.lex_points(axes)
+        Kuu = c * kern.ref_kernel(case["base"], U, U)
+        Wx, _ = R.interp_matrix(axes, X)
+        KW = Kuu @ Wx.T
+        inside = Kuu - KW @ torch.linalg.solve(A, KW.T)
+    rtol, atol = _kiss_tolerances(case, s, fps, A, rhs, kappa, inside)
     if fantasy or fps:
         # WISKI and fast_pred_samples work with Cholesky factors of numerically singular m x m matrices (W D^-1 W^T,
         # K_UU - K_UU W^T (K~+S)^-1 W K_UU): the jitter the dependency's psd_safe_cholesky adds to factor them (1e-8, escalating
@@ -904,8 +932,6 @@ def run_kiss_predict(case, ctx: Ctx):
     ctx.close("mean", gm, mean_w, rtol=rtol, atol=atol, scale=scale)
     ctx.close("cov", gc, cov_w, rtol=rtol, atol=atol, scale=scale)
     ctx.set_nontrivial(ns >= 2 and (d >= 2 or fantasy or s["fpv"] or fps or s["max_chol"] == 0))
-    ctx.label("kiss_predict", f"d={d}", f"fantasy={fantasy}", f"{'wiski' if fantasy else 'plain'}:{path}", f"fpv={int(s['fpv'])}", f"fps={int(fps)}", f"path={path}", f"lazy={int(s['lazy'])}",
-              f"scale={case['outputscale'] is not None}", f"lik={case['lik']['l']}{'+' if case['lik'].get('learn') else ''}", f"precond={s['precond']}")
 
 
 # ---- dynamic grid (no grid_bounds) ---------------------------------------------------------------
@@ -940,6 +966,7 @@ def kiss_dynamic_case(draw):
 def run_kiss_dynamic(case, ctx: Ctx):
     d, n, ns = case["d"], case["n"], case["ns"]
     ctx.cls = f"KISS|dynamic|d{d}|{'test_outside_train_range' if case['out_of_range'] else 'test_inside_train_range'}"
+    ctx.label(f"dyn:d={d}", "dyn:test_outside" if case["out_of_range"] else "dyn:test_inside", *(["dyn:trained_first"] if case["trained_first"] else []), *(["dyn:second_call"] if case["second_call"] else []))
     X, y, Xs = T(case["X"]), T(case["y"]), T(case["Xs"])
     with ctx.observing("predict"):
         model, lik, covar, gik = _kiss_model(case)
@@ -970,7 +997,6 @@ def run_kiss_dynamic(case, ctx: Ctx):
         ctx.close("mean_second_call", gm2, mean_w, rtol=tol, atol=tol, scale=scale)
         ctx.close("cov_second_call", gc2, cov_w, rtol=tol, atol=tol, scale=scale)
     ctx.set_nontrivial(ns >= 2)
-    ctx.label("kiss_dynamic", f"d={d}", f"out_of_range={case['out_of_range']}", f"trained_first={case['trained_first']}", f"second_call={case['second_call']}")
 
 
 # ===================================================================================================
@@ -1006,6 +1032,7 @@ def run_convergence(case, ctx: Ctx):
     d = case["d"]
     sym = is_symmetric_setup(case)
     ctx.cls = f"SKI|converge|d{d}|{'sym' if sym or d == 1 else 'asym'}"
+    ctx.label(f"conv:d={d}", "conv:sym" if sym or d == 1 else "conv:asym", *(["conv:ard"] if case["base"].get("ard") else []), *(["conv:non_rbf"] if case["base"]["k"] != "RBF" else []))
     # the drawn points plus a fixed low-discrepancy set in the same interior region, so that the maximum over the point pairs is
     # a fair estimate of the sup norm of the error (a single pair can sit next to a zero of the error function)
     lo = T([b[0] for b in case["bounds"]])
@@ -1029,7 +1056,6 @@ def run_convergence(case, ctx: Ctx):
     ctx.check("error_decreases", errs[1] <= max(errs[0] / 4, 5e-6), f"|K~ - K| = {errs[0]:.3e} on {case['sizes']}, {errs[1]:.3e} on the doubled grid")
     ctx.notes["errs"] = errs
     ctx.set_nontrivial(d >= 2 and not sym)
-    ctx.label("ski_convergence", f"d={d}", f"sym={sym}", f"base={kern.describe(case['base'])}", f"toeplitz={case['toeplitz']}")
 
 
 # ===================================================================================================
@@ -1043,7 +1069,7 @@ SUBCHECKS = [
     Subcheck("sgpr.train", run_sgpr_train, strategy=lambda: sgpr_case(False), quick=400, thorough=10000, min_shard=50),
     Subcheck("sgpr.predict", run_sgpr_predict, strategy=lambda: sgpr_case(True), quick=1000, thorough=20000, min_shard=50),
     Subcheck("kiss.kernel", run_ski_kernel, strategy=ski_kernel_case, quick=800, thorough=10000, min_shard=100),
-    Subcheck("kiss.predict", run_kiss_predict, strategy=kiss_predict_case, quick=1200, thorough=30000, min_shard=50),
+    Subcheck("kiss.predict", run_kiss_predict, strategy=kiss_predict_case, quick=1600, thorough=30000, min_shard=50),
     Subcheck("kiss.dynamic", run_kiss_dynamic, strategy=kiss_dynamic_case, quick=400, thorough=6000, min_shard=50),
     Subcheck("kiss.convergence", run_convergence, strategy=convergence_case, quick=300, thorough=3000, min_shard=50),
     Subcheck("rff.predict", run_rff, strategy=rff_case, quick=500, thorough=10000, min_shard=50),
@@ -1081,7 +1107,8 @@ ASSUMPTIONS = [
     "cross block carries the correction: FITC at the training points, not an SGPR equation)",
     "inducing matrices with cond(Kzz) > 1e6 and systems with cond(K+S) > 1e8 (1e5 CG, 1e4 Lanczos) are discarded and counted",
     "iterative paths: cg/eval_cg tolerance 1e-12, max_cg_iterations 100 (<= 11 unknowns), max_root_decomposition_size 200; cases on which the "
-    "dependency's own CG misses the dense solution of the same system by > 1e-6 are discarded (calibration of the domain, not the oracle)",
+    "dependency's own CG misses the dense solution of the same system by > 1e-6, or its Lanczos root decomposition does not reproduce the "
+    "m x m matrix of the fast_pred_samples path to 1e-5, are discarded (calibration of the domain, not the oracle)",
     "WISKI and fast_pred_samples factor numerically singular m x m matrices with jitter (psd_safe_cholesky): compared at 1e-5",
     "kiss.convergence evaluates at points >= 5 % of the width away from the grid bounds: create_grid extends the grid by less than one "
     "(actual) cell, so inputs within width/((G-1)(G-2)) of a bound fall into the boundary cell and are interpolated by nearest node "
